@@ -82,6 +82,15 @@ pub fn dispatch(op: &str, ty: &str, args: &[Arg]) -> Option<String> {
         return match std::panic::catch_unwind(std::panic::AssertUnwindSafe(|| dispatch("monp", ty, args))) {
             Ok(r) => r, Err(_) => Some("z(1)".to_string()) };
     }
+    // `mone`: the arguments are invalid BY CONSTRUCTION (an unknown option name): anything but an error value is reported
+    if op == "mone" {
+        let (name, rest) = match args.first() { Some(Arg::S(n)) => (String::from_utf8(n.clone()).ok()?, &args[1..]), _ => return Some("bad".into()) };
+        if name != "convolve" { return Some("bad:input".into()) }
+        let (a, b, m) = match rest { [Arg::A(s1, e1), Arg::A(s2, e2), Arg::S(m)] => (mk::<f64>(s1, e1)?, mk::<f64>(s2, e2)?, String::from_utf8(m.clone()).ok()?), _ => return Some("bad:input".into()) };
+        let r1 = a.convolve(&b, Some(m.as_str()));
+        let r2 = okr(&a).convolve(&b, Some(m.clone()));
+        return Some(if r1.is_err() && r2.is_err() { "z(1)".to_string() } else { "!accepted(an unknown option name gave a successful array)".to_string() });
+    }
     if op != "monp" { return None }
     let (name, rest) = match args.first() { Some(Arg::S(n)) => (String::from_utf8(n.clone()).ok()?, &args[1..]), _ => return Some("bad".into()) };
     let r = if name == "eig" || name == "eigvals" { go_f64(&name, rest) }
